@@ -157,7 +157,7 @@ for _nch in (1, 2, 3):
 @contract('C20', 'parse_uri.omitted-channel', [PARSE],
           clause='omitted trailing fields take their defaults: a URI that names only the dongle (radio://<dongle>, with or '
                  'without trailing slash / rate_limit option) parses to channel 2, 2M, address E7E7E7E7E7',
-          bounded='dongle index of 1, 2 or 9 digits; rate_limit value of 1 or 3 digits', thorough_only=True)
+          bounded='dongle index of 1, 2 or 9 digits; rate_limit value of 1 or 3 digits')
 def omitted_channel(c):
     # FINDING on the unchanged tree (kept, thorough tier only until triaged): every one of these URIs raises ValueError
     # (int('') in parse_uri: ''.split('/') == ['']), e.g. radio://0, radio://0/, radio://0?rate_limit=5
@@ -612,7 +612,7 @@ LENIENT = ['radio://0/80/3M', 'radio://0/80/2M/E7E7E7E7E7/extra', 'radio://0/+80
 @contract('C20', 'drivers.malformed-radio-uri-accepted', [CRTP + ':get_link_driver', PARSE],
           clause='a radio URI outside the documented grammar radio://<dongle>/<channel>/[250K,1M,2M]/<address> (unknown data-rate '
                  'token, extra path segment, signed or underscored channel) is malformed: it yields no driver and no dongle is opened',
-          bounded='the %d URIs of LENIENT' % len(LENIENT), thorough_only=True)
+          bounded='the %d URIs of LENIENT' % len(LENIENT))
 def lenient(c):
     # FINDING on the unchanged tree (kept, thorough tier only until triaged): all four are accepted and dongle 0 is opened
     uri = LENIENT[c.choice('uri_index', list(range(len(LENIENT))))]
